@@ -187,7 +187,6 @@ func (w *worker) runCase(c *gcase, soft, hard time.Duration) *caseResult {
 	}
 	guard := func(target string, f func()) bool {
 		fmt.Println("TARGET", target)
-		base := goroutineIDs()
 		st, rec := callGuarded(target, activity, soft, hard, f)
 		switch st {
 		case callPanicked:
@@ -195,7 +194,7 @@ func (w *worker) runCase(c *gcase, soft, hard time.Duration) *caseResult {
 			res.Outcomes = append(res.Outcomes, target+":PANIC")
 		case callHung:
 			res.Hangs = append(res.Hangs, target)
-			res.HangStacks = append(res.HangStacks, thunderStacks(base)...)
+			res.HangStacks = append(res.HangStacks, thunderStacks(nil)...)
 			res.Outcomes = append(res.Outcomes, target+":HANG")
 		case callUndecided:
 			res.Undecided = append(res.Undecided, target)
